@@ -23,10 +23,13 @@ structure Defects where
   backslashRaw : Bool := false
   /-- C0 controls (LF, CR, NUL …), DEL, U+2028 and U+2029 are copied raw -/
   controlsRaw : Bool := false
+  /-- no comma between the `headers: {…}` and `wsConnectionParams: {…}` properties -/
+  missingComma : Bool := false
   deriving DecidableEq, Repr
 
 def Defects.none : Defects := {}
-def Defects.pinned : Defects := { entitiesInScript := true, backslashRaw := true, controlsRaw := true }
+def Defects.pinned : Defects :=
+  { entitiesInScript := true, backslashRaw := true, controlsRaw := true, missingComma := true }
 
 abbrev Table := List (Char × List Char)
 
@@ -90,6 +93,18 @@ structure Page where
   subscription : Option (List Char)
   headers : List (List Char × List Char)
   wsParams : List (List Char × List Char)
+  /-- properties of the object literal given to `createGraphiQLFetcher`, in page order, each
+      with the flag "followed by a comma" -/
+  members : List (String × Bool)
+
+/-- the template writes `url: …,` `fetch: …,` `subscriptionUrl: …,` with a comma, the two
+    optional map blocks without one (pinned); `headers`/`wsConnectionParams` exist only when an
+    entry was configured -/
+def members (D : Defects) (c : Config) : List (String × Bool) :=
+  [("url", true), ("fetch", true)] ++
+  (if c.subscription.isSome then [("subscriptionUrl", true)] else []) ++
+  (if c.headers.isEmpty then [] else [("headers", !D.missingComma)]) ++
+  (if c.wsParams.isEmpty then [] else [("wsConnectionParams", false)])
 
 def render (table : Table) (D : Defects) (c : Config) : Page :=
   let r := renderScript table D
@@ -97,6 +112,7 @@ def render (table : Table) (D : Defects) (c : Config) : Page :=
     endpoint := r c.endpoint
     subscription := c.subscription.map r
     headers := c.headers.map (fun kv => (r kv.1, r kv.2))
-    wsParams := c.wsParams.map (fun kv => (r kv.1, r kv.2)) }
+    wsParams := c.wsParams.map (fun kv => (r kv.1, r kv.2))
+    members := members D c }
 
 end AGV.Model.Graphiql
